@@ -17,10 +17,11 @@
       `ID <name> -`.  `builtins` (the keys of `Parser.BUILTIN`) is a parameter.
 
   Partial operations of the Python code that stay explicit:
-    * `int(token.value)` — modelled for decimal literals `-?[0-9]+` (`pyInt`), where it raises
+    * `int(s)` — modelled for decimal literals `-?[0-9]+` (`pyInt`), where it raises
       `ValueError` exactly for more than 4300 digits (CPython's default
-      `sys.get_int_max_str_digits()`), which `parse_int` turns into "number too large"; any other
-      string is outside the modelled domain: result `.exc "ModelDomain:int"`;
+      `sys.get_int_max_str_digits()`), which `parse_int` turns into "number too large"
+      (`parse_int` / `parse_number` strip leading zeros first, so only significant digits
+      count); any other string is outside the modelled domain: result `.exc "ModelDomain:int"`;
     * `Range(start, stop)` — modelled for one-character strings (what `ord()` in the harness
       and `[a-b]` in `Range.__init__` need); otherwise `.exc "ModelDomain:Range"`;
     * `unescape_string` — `Unescape.unescape`, whose `.exc` results are passed on.
@@ -92,13 +93,35 @@ def pyInt (s : Text) : Option (Option Int) :=
   else if ds.length > 4300 then some none
   else some (some (if neg then -(digitsVal ds : Int) else (digitsVal ds : Int)))
 
+/-- `s.lstrip("0")` -/
+def lstrip0 : Text → Text
+  | 48 :: r => lstrip0 r
+  | t => t
+
+/-- `s.lstrip("0") or "0"`: the significant digits -/
+def stripZeros (t : Text) : Text :=
+  let d := lstrip0 t
+  if d.isEmpty then [48] else d
+
+/-- `("-", value[1:]) if value.startswith("-") else ("", value)` -/
+def splitSign : Text → Text × Text
+  | 45 :: r => ([45], r)
+  | v => ([], v)
+
+/-- `sign + (digits.lstrip("0") or "0")`: the literal handed to `int()` -/
+def intLiteral (value : Text) : Text := (splitSign value).1 ++ stripZeros (splitSign value).2
+
 /-- ```python
 def parse_int(self, token):
-    try: return int(token.value)
+    value = token.value
+    sign, digits = ("-", value[1:]) if value.startswith("-") else ("", value)
+    digits = digits.lstrip("0") or "0"
+    try: return int(sign + digits)
     except ValueError as err: raise PestGrammarSyntaxError("number too large", token=token)
-``` -/
+```
+(after the `fix:` commit 6f76b47: leading zeros do not count towards `int()`'s digit limit) -/
 def parseInt (t : Token) : P Int :=
-  match pyInt t.value with
+  match pyInt (intLiteral t.value) with
   | none => raise "ModelDomain:int"
   | some none => fail .numberTooLarge t
   | some (some v) => pure v
@@ -108,13 +131,21 @@ def MAX_REPEAT : Int := 4294967295
 
 /-- ```python
 def parse_number(self, token):
-    number = self.parse_int(token)
-    if number > MAX_REPEAT: raise PestGrammarSyntaxError("number cannot overflow u32", token=token)
-    return number
-``` -/
-def parseNumber (t : Token) : P Int := do
-  let number ← parseInt t
-  if number > MAX_REPEAT then fail .numberOverflow t else pure number
+    digits = token.value.lstrip("0") or "0"
+    if len(digits) > len(str(MAX_REPEAT)) or int(digits) > MAX_REPEAT:
+        raise PestGrammarSyntaxError("number cannot overflow u32", token=token)
+    return int(digits)
+```
+(more than ten significant digits exceed u32 whatever they are and never reach `int()`; with at
+most ten digits `int()` cannot hit its digit limit — the `ValueError` exit is kept for the shape
+of the code and is unreachable) -/
+def parseNumber (t : Token) : P Int :=
+  let digits := stripZeros t.value
+  if digits.length > 10 then fail .numberOverflow t
+  else match pyInt digits with
+    | none => raise "ModelDomain:int"
+    | some none => raise "ValueError"
+    | some (some v) => if v > MAX_REPEAT then fail .numberOverflow t else pure v
 
 /-! ### literals -/
 
